@@ -233,6 +233,7 @@ func VH20c_duration_sym() {
 }
 
 type stubSock struct {
+	inbox0  [][]byte
 	inbox   [][]byte // messages RecvMsg hands out before it reports recvEnd (default: receive timeout)
 	recvEnd error
 	order   []byte // 's' / 'r' per completed SendMsg / successful RecvMsg
@@ -412,7 +413,17 @@ func VH20f_run() {
 	}
 	in1 := verif.Bytes("in1", 1+verif.Choice("ilen", 2))
 	in2 := verif.Bytes("in2", 1)
-	s.inbox = [][]byte{in1, in2}
+	// how many messages arrive (0..2) and what ends the receiving: a receive timeout or - as a SURVEYOR reports once
+	// its survey is over - a protocol-state error; neither is a reason to stop sending the remaining rounds
+	answers := verif.Choice("answers", 3)
+	s.inbox = [][]byte{in1, in2}[:answers]
+	s.inbox0 = s.inbox
+	if verif.Choice("recv-ends-with", 2) == 1 {
+		if names[pi] == "rep" || names[pi] == "respondent" {
+			verif.Assume(false) // a replying socket never reports a protocol-state error from Recv
+		}
+		s.recvEnd = mangos.ErrProtoState
+	}
 	rt := verif.Duration("recv-timeout")
 	verif.Assume(verif.And(rt >= 0, rt <= time.Hour))
 	// with an interval (solver variable) the payload is sent count times, otherwise once
@@ -428,7 +439,10 @@ func VH20f_run() {
 		a.subscriptions = []string{"t1", "t2"}
 	}
 	err := a.Run()
-	both := append(append([]byte{}, in1...), in2...)
+	var both []byte
+	for _, b := range s.inbox0 {
+		both = append(both, b...)
+	}
 	sends := len(s.sent)
 	switch names[pi] {
 	case "push", "pub":
@@ -453,11 +467,10 @@ func VH20f_run() {
 				// one transmission per round, count rounds, at most one arrival printed per round
 				verif.Assert(sends == count, lab+"/not-sent-the-requested-number-of-times")
 				both = both[:0]
-				if count >= 1 {
-					both = append(both, in1...)
-				}
-				if count >= 2 {
-					both = append(both, in2...)
+				for i, b := range s.inbox0 {
+					if i < count {
+						both = append(both, b...)
+					}
 				}
 			}
 			verif.Assert(len(s.order) > 0 && s.order[0] == 's', lab+"/received-before-sending")
@@ -468,8 +481,12 @@ func VH20f_run() {
 	case "rep", "respondent":
 		verif.Assert(err == nil, lab+"/run-error")
 		if withData {
-			verif.Assert(sends == 2, lab+"/not-exactly-one-reply-per-request")
-			verif.Assert(len(s.order) == 4 && s.order[0] == 'r' && s.order[1] == 's' && s.order[2] == 'r' && s.order[3] == 's', lab+"/replies-not-interleaved-with-requests")
+			verif.Assert(sends == answers, lab+"/not-exactly-one-reply-per-request")
+			okOrder := len(s.order) == 2*answers
+			for i := 0; okOrder && i < len(s.order); i++ {
+				okOrder = s.order[i] == "rs"[i%2]
+			}
+			verif.Assert(okOrder, lab+"/replies-not-interleaved-with-requests")
 		} else {
 			verif.Assert(sends == 0, lab+"/replied-without-data")
 		}
